@@ -186,6 +186,54 @@ func pickDecimal(rng *rand.Rand, t *yang.YangType) float64 {
 	return 0
 }
 
+// pickPreciseDecimal draws a float64 whose shortest decimal form needs 16 or 17
+// significant digits and still denotes a value of the type: at most fd fraction
+// digits and inside the ranges.  ok=false if none was found.
+func pickPreciseDecimal(rng *rand.Rand, t *yang.YangType) (float64, bool) {
+	fd := t.FractionDigits
+	if fd == 0 {
+		fd = 1
+	}
+	for tries := 0; tries < 60; tries++ {
+		v := pickInt(rng, t)
+		if tries%2 == 1 {
+			// interior values: random 16-17 digit mantissa
+			m := new(big.Int).SetInt64(1000000000000000 + rng.Int63n(8000000000000000))
+			if rng.Intn(2) == 0 {
+				m.Mul(m, big.NewInt(10)).Add(m, big.NewInt(int64(rng.Intn(10))))
+			}
+			if rng.Intn(2) == 0 {
+				m.Neg(m)
+			}
+			v = m
+		}
+		f, err := strconv.ParseFloat(ScaledToDecimalString(v, fd), 64)
+		if err != nil {
+			continue
+		}
+		sh := strconv.FormatFloat(f, 'f', -1, 64)
+		frac := 0
+		if i := strings.IndexByte(sh, '.'); i >= 0 {
+			frac = len(sh) - i - 1
+		}
+		digits := len(strings.TrimLeft(strings.NewReplacer("-", "", ".", "").Replace(sh), "0"))
+		if frac > fd || digits < 16 {
+			continue
+		}
+		// the denoted decimal, scaled, must be in range
+		r, ok := new(big.Rat).SetString(sh)
+		if !ok {
+			continue
+		}
+		r.Mul(r, new(big.Rat).SetInt(new(big.Int).Exp(big.NewInt(10), big.NewInt(int64(fd)), nil)))
+		if !r.IsInt() || !InRanges(t, r.Num()) {
+			continue
+		}
+		return f, true
+	}
+	return 0, false
+}
+
 var nicePool = []string{"a", "b", "abc", "foo", "bar", "x1", "node", "eth0", "zz", "q", "alpha", "beta", "k9", "hello", "w"}
 var hostilePool = []string{
 	"a/b", "a[b", "a]b", "a=b", `a\b`, `a"b`, "*", "..", "a b", " lead", "trail ", "é", "日本", "a]/b", "x//y", "[k=v]", "a\tb",
